@@ -18,6 +18,9 @@ CHECKS = {
  "C17": (MC, "exhaustive product enumeration of Fourier-generator configurations with shift-by-period oracle, plus breadth-first search over period / mode_no / model update histories on the real generator",
          "Full product model x dim 1-3 x anisotropy x rotation x period x even mode counts x seeds, each checked at lattice and off-grid points for shifts of +-1, +-2 periods along every main axis (explicit rotation matrices from the documented convention), with a half-period negative control; BFS (depth 3/4) over update histories checks periodicity for the current settings and equality with a fresh generator after every call.",
          "periodicity judged to 1e-9 of the field amplitude; bounded depth and alphabet", "5/C17"),
+ "C07": (MC, "explicit-state breadth-first search over generation / set_pos / set_condition / model-refresh histories on real CondSRF(Krige) objects; reference state dict + freshly built objects as differential oracle; conditioning formula re-computed from an independent unconditional SRF",
+         "All histories up to depth 3 (thorough 4) over 19-20 operations (calls with new / kept / close / caller-mutated / structured positions and new / kept seeds, set_pos, set_condition with new values or positions, in-place model change + documented refresh, model / mean / trend / normalizer re-assignment, direct kriging call) on Simple, Ordinary, Universal and Detrended conditioning; after each generating call the stored kriging parts, raw field and (nugget-free) full field are compared with freshly built objects, the data are checked at the conditioning points and the far field under simple kriging. A product enumeration on fresh objects pins the formula including its nugget part.",
+         "zero measurement error configurations; kriging correctness itself is C05/C06; bounded depth and alphabet", "5/C07"),
 }
 PENDING = {}
 def main():
